@@ -1037,7 +1037,8 @@ def main():
     steps = [("tables", lambda: gen_safe(facts, gen_exports_and_macros(facts))),
              ("dispatch", lambda: gen_dispatch(facts))]
     import importlib
-    for modname in ("translate_more", "translate_feat", "translate_crate", "translate_utils", "translate_regs"):
+    for modname in ("translate_more", "translate_feat", "translate_crate", "translate_utils", "translate_regs",
+                    "translate_kernels"):
         try:
             mod = importlib.import_module(modname)
         except ImportError:
